@@ -253,15 +253,20 @@ def scenarios(rng, n):
             add(src, [{'line': 4, 'kind': kind, 'label': 'far', 'text': kind + ' far'}])
         elif t == 5:
             # shift amounts spelled as constants / register names / literals
-            shs = ['SH', 't0', '3', 'x5', '0x3', 'BIG', '31', 'zero']
+            shs = ['SH', 't0', '3', 'x5', '0x3', 'BIG', '31', 'zero', 'NONE']
             sh = shs[j % len(shs)]
             ins = rng.choice(['slli', 'srli', 'srai'])
             rd = rng.choice(['x8', 'x9', 'x5'])
-            src = 'SH = 3\nBIG = 31\n{} {}, {}, {}\n'.format(ins, rd, rd, sh)
+            src = 'SH = 3\nBIG = 31\nNONE = 0\n{} {}, {}, {}\n'.format(ins, rd, rd, sh)
             add(src)
         elif t == 6:
             # register aliases and constants in operand positions
-            src = 'BASE = x9\nDST = s0\nOFF = 8\nlw DST, OFF(BASE)\naddi DST, DST, OFF\nsw BASE, DST, OFF\nli DST, OFF * 4\n'
+            # (a constant whose value is 0 -- the zero register, offset 0 -- is falsy in Python: seeded change C11-r4)
+            base = ['x9', 'zero', 'x0', 'a1'][j % 4]
+            dst = ['s0', 's0', '4 - 4', 'x0'][(j // 2) % 4]
+            off = [8, 0, 8, 0][(j // 3) % 4]
+            src = ('BASE = {}\nDST = {}\nOFF = {}\nlw DST, OFF(BASE)\naddi DST, DST, OFF\nsw BASE, DST, OFF\nli DST, OFF * 4\n'
+                   'add DST, BASE, DST\nbeq BASE, DST, 8\n').format(base, dst, off)
             add(src)
         elif t == 7:
             # branch right at the compressed branch range edge, with compressible filler in between
